@@ -45,9 +45,10 @@ TECHNIQUE = ("property-based testing (Hypothesis) of operation histories: "
 ASSUMPTIONS = [
     "observations are Python ints/floats (|x| = 0 or in [1e-6, 1e6]), ratio "
     "totals are positive ints, choice indexes are in [0, choice_num)",
-    "chunks are non-empty; an empty Result/SimulationResults only ever appears "
-    "as the receiver (left operand), as in combine_simulation_results and the "
-    "runner",
+    "chunks are non-empty; besides them a never-updated Result may be the "
+    "receiver (left operand) and may be merged IN at any later place (it "
+    "contributes no observation: what a combined result set holds for a "
+    "parameter combination that was simulated in none of its sources)",
     "for MISC results only 'value == last observation' is asserted",
     "for CHOICE results mean/variance are only required to be the same in the "
     "grouped and the single object (no reference value)",
@@ -173,6 +174,12 @@ def _result_case(draw, tier):
                 acc=draw(st.booleans()), obs=obs, chunks=sizes, tail=tail,
                 order=draw(_merge_plan(len(sizes))),
                 empty_head=draw(st.sampled_from([False, False, True])),
+                # a never-updated Result merged IN somewhere after the first
+                # chunk (a parameter combination one of the sets never
+                # simulated): it contributes no observation
+                empty_at=draw(st.one_of(st.none(), st.none(),
+                                        st.integers(0, 12))),
+                empty_order=draw(st.integers(0, 12)),
                 create_first=draw(st.booleans()))
 
 
@@ -224,8 +231,18 @@ def _combine_case(draw, tier):
     names = draw(st.permutations(_PNAMES))[:nun + 1]
     unpacked = []
     for nm in names[:nun]:
-        kind = draw(st.sampled_from(["int", "float", "float", "close"]))
-        if kind == "int":
+        kind = draw(st.sampled_from(["int", "float", "float", "close",
+                                     "mixed", "str"]))
+        if kind == "str":
+            # labels of different lengths ('QPSK', '16QAM', ...)
+            pool = draw(st.lists(st.sampled_from(
+                ["x", "yy", "BPSK", "QPSK", "16QAM", "64QAM", "A b c d"]),
+                min_size=2, max_size=5, unique=True))
+        elif kind == "mixed":
+            # one simulation stored integers, the other one floats
+            pool = draw(st.lists(st.integers(-5, 20), min_size=2, max_size=5,
+                                 unique=True))
+        elif kind == "int":
             pool = draw(st.lists(st.integers(-5, 20), min_size=1, max_size=5,
                                  unique=True))
         elif kind == "close":
@@ -251,21 +268,33 @@ def _combine_case(draw, tier):
                               max_size=maxv, unique=True))
             b = draw(st.lists(st.sampled_from(pool), min_size=1,
                               max_size=maxv, unique=True))
-        unpacked.append(dict(name=nm, a=list(a), b=list(b),
+        c = draw(st.lists(st.sampled_from(pool), min_size=1, max_size=maxv,
+                          unique=True))
+        if kind == "mixed":
+            b = [x + draw(st.sampled_from([0.0, 0.0, 0.5, 0.25])) for x in b]
+            c = [float(x) for x in c]
+        unpacked.append(dict(name=nm, a=list(a), b=list(b), c=list(c),
+                             kind=kind,
                              container=draw(st.sampled_from(
                                  ["list", "array"]))))
     fixed = {names[nun]: draw(st.one_of(st.integers(-3, 3),
                                         st.sampled_from(["x", "QAM"])))}
     na = 1
     nb = 1
+    nc = 1
     for u in unpacked:
         na *= len(u["a"])
         nb *= len(u["b"])
+        nc *= len(u["c"])
     rep = st.lists(_rep_strategy(specs), min_size=1, max_size=3)
     a_obs = [draw(rep) for _ in range(na)]
     b_obs = [draw(rep) for _ in range(nb)]
+    # a third result set, combined as (a+b)+c or a+(b+c)
+    third = draw(st.sampled_from([None, None, "left", "right"]))
+    c_obs = [draw(rep) for _ in range(nc)] if third else []
     return dict(part="combine", results=specs, unpacked=unpacked,
-                fixed=fixed, a_obs=a_obs, b_obs=b_obs)
+                fixed=fixed, a_obs=a_obs, b_obs=b_obs, c_obs=c_obs,
+                third=third)
 
 
 @st.composite
@@ -529,7 +558,13 @@ def _check_result_part(case, ctx):
     order = list(case["order"])
     if case["empty_head"]:
         order = order + [0]
-    shape = _plan_shape(order, k + (1 if case["empty_head"] else 0))
+    empty_at = case.get("empty_at")
+    if empty_at is not None:
+        order.insert(int(case["empty_order"]) % (len(order) + 1),
+                     int(case["empty_order"]))
+        ctx.label("empty_operand_merged_in")
+    shape = _plan_shape(order, k + (1 if case["empty_head"] else 0) +
+                        (1 if empty_at is not None else 0))
     ctx.label("result:" + typ, "cls:" + cls, "acc" if acc else "no_acc",
               "chunks=1" if k == 1 else ("chunks=2" if k == 2 else
                                          "chunks>=3"),
@@ -560,6 +595,10 @@ def _check_result_part(case, ctx):
         _check_result(ctx, objs[-1], Ref(typ, cn, chunk), exact, acc, "chunk",
                       tags)
         pos += s
+    if empty_at is not None:
+        j = 1 + int(empty_at) % len(objs)
+        objs.insert(j, _new_result(Result, "res", typ, acc, cn, [], False))
+        ranges.insert(j, (ranges[j - 1][1], ranges[j - 1][1]))
     operands = []                       # (object, snapshot, description)
     step = 0
     while len(objs) > 1:
@@ -798,6 +837,13 @@ def _check_combine_part(case, ctx):
     all_specs = case["results"]
     has_choice = any(sp["type"] == "CHOICE" for sp in all_specs)
     tags = dict(part="combine", has_choice=has_choice)
+    third = case.get("third")
+    sides = ["a", "b"] + (["c"] if third else [])
+    if third:
+        ctx.label("combine:three_sets_" + third)
+    for u in case["unpacked"]:
+        if u.get("kind") in ("mixed", "str"):
+            ctx.label("combine:values_" + u["kind"])
     kinds = []
     for u in case["unpacked"]:
         common = set(u["a"]) & set(u["b"])
@@ -818,15 +864,20 @@ def _check_combine_part(case, ctx):
         specs = [sp for i, sp in enumerate(all_specs) if i in keep]
         sel = lambda obs: [[[r[i] for i in keep] for r in reps]  # noqa
                            for reps in obs]
-        sa, combos_a = _build_side(SimulationParameters, SimulationResults,
-                                   Result, case, "a", specs,
-                                   sel(case["a_obs"]))
-        sb, combos_b = _build_side(SimulationParameters, SimulationResults,
-                                   Result, case, "b", specs,
-                                   sel(case["b_obs"]))
-        snap_a, snap_b = _snap_set(sa), _snap_set(sb)
+        built = [_build_side(SimulationParameters, SimulationResults,
+                             Result, case, w, specs, sel(case[w + "_obs"]))
+                 for w in sides]
+        sets = [b[0] for b in built]
+        snaps = [_snap_set(x) for x in sets]
         try:
-            union = combine_simulation_results(sa, sb)
+            if third == "left":
+                union = combine_simulation_results(
+                    combine_simulation_results(sets[0], sets[1]), sets[2])
+            elif third == "right":
+                union = combine_simulation_results(
+                    sets[0], combine_simulation_results(sets[1], sets[2]))
+            else:
+                union = combine_simulation_results(sets[0], sets[1])
         except Exception as exc:     # tag only; always re-raised by caller
             exc.vpbt_tags = dict(tags, call="combine_simulation_results")
             raise
@@ -843,7 +894,7 @@ def _check_combine_part(case, ctx):
                                 nm, tags)
         for u in case["unpacked"]:
             got = sorted(np.asarray(up[u["name"]]).tolist())
-            want = sorted(set(u["a"]) | set(u["b"]))
+            want = sorted(set().union(*[u[w] for w in sides]))
             if got != want:
                 raise Violation("combine_params", "values of %r: %r, expected "
                                 "the union %r" % (u["name"], got, want), tags)
@@ -851,14 +902,14 @@ def _check_combine_part(case, ctx):
         seen = set()
         for vi, var in enumerate(variations):
             combo = tuple(var[nm] for nm in names)
-            key = tuple(float(x) for x in combo)
+            key = tuple(x if isinstance(x, str) else float(x) for x in combo)
             if key in seen:
                 raise Violation("combine_params", "combination %r twice" %
                                 (combo,), tags)
             seen.add(key)
             srcs = []
-            for combos, obs in ((combos_a, case["a_obs"]),
-                                (combos_b, case["b_obs"])):
+            for combos, obs in [(built[k][1], case[w + "_obs"])
+                                for k, w in enumerate(sides)]:
                 for ci, c in enumerate(combos):
                     if all(x == y for x, y in zip(c, combo)):
                         srcs.append(obs[ci])
@@ -880,11 +931,11 @@ def _check_combine_part(case, ctx):
                                    nsources=len(srcs)))
         want_n = 1
         for u in case["unpacked"]:
-            want_n *= len(set(u["a"]) | set(u["b"]))
+            want_n *= len(set().union(*[u[w] for w in sides]))
         if len(variations) != want_n:
             raise Violation("combine_params", "%d combinations, expected %d" %
                             (len(variations), want_n), tags)
-        if _snap_set(sa) != snap_a or _snap_set(sb) != snap_b:
+        if [_snap_set(x) for x in sets] != snaps:
             raise Violation("combine_operand_mutated", "a source result set "
                             "was changed by combine_simulation_results", tags)
 
